@@ -32,6 +32,11 @@ def main():
         return 2
     props = [f"C{i:02d}" for i in range(1, 18)]
     summary = []
+    # evidence files must describe runs on the unchanged tree: keep them aside and put them back
+    import shutil, tempfile
+    keep = tempfile.mkdtemp(prefix="evidence_keep_", dir=VERIF)
+    for f in glob.glob(os.path.join(VERIF, "evidence", "*.json")):
+        shutil.copy(f, keep)
     for sid in ids:
         d = os.path.join(VERIF, "seeded", sid)
         meta_path = os.path.join(d, "meta.json")
@@ -78,6 +83,9 @@ def main():
                         meta["last_run"]["also_caught_by"]))
         print(f"{sid}: property={prop} demo {rc0}->{rc1} tests_green={tests_rc == 0} "
               f"caught={caught} failing_input={with_input} also={meta['last_run']['also_caught_by']}")
+    for f in glob.glob(os.path.join(keep, "*.json")):
+        shutil.copy(f, os.path.join(VERIF, "evidence"))
+    shutil.rmtree(keep, ignore_errors=True)
     rc, out = sh("git status --porcelain", REPO)
     if out.strip():
         print("WARNING: /repo not clean after the run:\n" + out)
